@@ -364,6 +364,11 @@ class Interp:
             raise Unsupported("range test on %r / %r" % (r, x))
         # Option / Result combinators of the standard library: their meaning is fixed, so `match x { Some(v) => v, None => d }`
         # and `x.unwrap_or(d)` evaluate alike
+        mb = re.match(r"^(?:std|core)::bool::<impl bool>::(then_some|then)$", name)
+        if mb and args and isinstance(deref(args[0]), bool):
+            if not deref(args[0]):
+                return _none()
+            return _some(args[1] if mb.group(1) == "then_some" else self._apply(args[1], [], depth))
         m = _COMBINATOR.match(name)
         if m:
             r = self._combinator(m.group(2), args, depth)
@@ -449,6 +454,8 @@ def _interp_combinator(self, meth, args, depth):
     ap = lambda f, a: self._apply(f, a, depth)
     if meth == "unwrap_or":
         return v if has else args[1]
+    if meth == "flatten" and x.vname in ("Some", "None"):
+        return (v if isinstance(v, Enum) else _some(v)) if has else x
     if meth == "unwrap_or_else":
         return v if has else ap(args[1], [] if x.vname == "None" else [v])
     if meth in ("is_some", "is_ok"):
